@@ -471,18 +471,18 @@ macro_rules! fixed {
 
 fn subchecks(ctx: &Ctx) -> Vec<SubCheck> {
     let mut v = vec![];
-    fixed!(v, 6000, 60000; 1, 2);
-    fixed!(v, 5000, 40000; 3, 4);
-    fixed!(v, 3000, 25000; 8);
-    fixed!(v, 2000, 15000; 16);
-    fixed!(v, 800, 6000; 40);
+    fixed!(v, 20000, 120000; 1, 2);
+    fixed!(v, 16000, 80000; 3, 4);
+    fixed!(v, 12000, 50000; 8);
+    fixed!(v, 10000, 30000; 16);
+    fixed!(v, 4000, 12000; 40);
     if ctx.thorough() {
         // straddle the 32-limb large-divisor threshold with fixed widths, and a second large round
         fixed!(v, 400, 3000; 32, 33, 64);
     }
-    v.push(SubCheck::new("boxed/roundtrip/1..=40", 3000, boxed_roundtrip_case(40)).tape(200));
-    v.push(SubCheck::new("boxed/roundtrip/1..=140", 1500, boxed_roundtrip_case(140)).tape(480));
-    v.push(SubCheck::new("boxed/parse/1..=40", 20000, boxed_parse_case(40)).tape(260));
-    v.push(SubCheck::new("boxed/parse/1..=140", 6000, boxed_parse_case(140)).tape(760));
+    v.push(SubCheck::new("boxed/roundtrip/1..=40", 16000, boxed_roundtrip_case(40)).tape(200));
+    v.push(SubCheck::new("boxed/roundtrip/1..=140", 6000, boxed_roundtrip_case(140)).tape(480));
+    v.push(SubCheck::new("boxed/parse/1..=40", 40000, boxed_parse_case(40)).tape(260));
+    v.push(SubCheck::new("boxed/parse/1..=140", 12000, boxed_parse_case(140)).tape(760));
     v
 }
